@@ -1,15 +1,53 @@
 import RegexVerif.Sexp
+import RegexVerif.Driver.C01
+import RegexVerif.Driver.C02
+import RegexVerif.Driver.C03
+import RegexVerif.Driver.C04
+import RegexVerif.Driver.C05
+import RegexVerif.Driver.C06
+import RegexVerif.Driver.C07
+import RegexVerif.Driver.C08
+import RegexVerif.Driver.C09
+import RegexVerif.Driver.C10
+import RegexVerif.Driver.C11
+import RegexVerif.Driver.C12
+import RegexVerif.Driver.C13
+import RegexVerif.Driver.C14
+import RegexVerif.Driver.C15
+import RegexVerif.Driver.C16
+import RegexVerif.Driver.C17
+import RegexVerif.Driver.C18
 import RegexVerif.Driver.C19
+import RegexVerif.Driver.C20
 
 open RegexVerif RegexVerif.Driver
 
-/-- one protocol line in, one answer line out -/
+/-- one protocol line in, one answer line out; the head symbol selects the property's handler -/
 def answer (line : String) : String :=
   match Sexp.parse line with
   | none => "(bad-line)"
   | some e =>
     match e.head? with
+    | some "c01" => handleC01 e.args
+    | some "c02" => handleC02 e.args
+    | some "c03" => handleC03 e.args
+    | some "c04" => handleC04 e.args
+    | some "c05" => handleC05 e.args
+    | some "c06" => handleC06 e.args
+    | some "c07" => handleC07 e.args
+    | some "c08" => handleC08 e.args
+    | some "c09" => handleC09 e.args
+    | some "c10" => handleC10 e.args
+    | some "c11" => handleC11 e.args
+    | some "c12" => handleC12 e.args
+    | some "c13" => handleC13 e.args
+    | some "c14" => handleC14 e.args
+    | some "c15" => handleC15 e.args
+    | some "c16" => handleC16 e.args
+    | some "c17" => handleC17 e.args
+    | some "c18" => handleC18 e.args
     | some "c19" => handleC19 e.args
+    | some "c20" => handleC20 e.args
     | _ => "(bad-op)"
 
 partial def loop (h : IO.FS.Stream) (out : IO.FS.Stream) : IO Unit := do
